@@ -1,4 +1,363 @@
-import RattrModel.FnAnalyser
+/-
+  C01 — every access in a function body is reported (no missed get / set / del / call).
+
+  Model: `FnA.visit … / FnA.analyse` (RattrModel/FnAnalyser.lean), tied to
+  `rattr/analyser/function.py` by the differential harness (py/props/c01.py).
+  Spec: `AccessSpec.accesses` (RattrProofs/Lemmas/VisitSpec.lean) — one uniform recursion that
+  descends into every child of every node.
+
+  The full statement `C01_full` is FALSE on the pinned code (`C01_full_false`, `C01_cex_*`: one
+  kernel-evaluated counterexample per known-finding class).  Proved for ALL inputs:
+    * `C01_monotone_*` / `C01_recorded_survives`: the visitor never forgets an access it has
+      recorded (whole mutual block, every constructor) — so "reported once" = "in the final IR";
+    * `C01_chain_reported`: every pure name chain, in any context, is reported under the right
+      kind with the README spelling;
+    * `C01_generic_children`, `C01_list_each`: every child of a node without a dedicated visitor
+      is visited, in order; a body is visited statement by statement;
+    * `C01_call_recorded`: an ordinary call is recorded and all its arguments are visited;
+    * `C01_unnameable_base_visited`: `(e).a` with an unnameable `e` visits `e`.
+    * `C01_partial`: the full lower bound on the fragment "generic nodes over pure chains".
+  Not proved: the lower bound over a fragment that also contains calls, assignments, loops, …
+  (`C01_partial` of DESIGN §5 with the complete `dropped` table); the per-constructor facts
+  above are its leaves.
+-/
+import RattrProofs.Lemmas.Visit
+import RattrProofs.Lemmas.VisitSpec
+
 namespace Rattr.C01
-theorem placeholder : True := trivial
+open Rattr Rattr.FnA Rattr.Strs Rattr.AccessSpec
+
+/-! ### full statement -/
+
+/-- every access of the body (per the independent spec) is present in the IR `analyse` returns. -/
+def C01_full : Prop :=
+  ∀ (env : Env) (mn : Str) (root : Context) (ps : Params) (body : List Node) (s' : St),
+    analyse env mn root ps body = .ok s' → ∀ a ∈ accessesL body, present a s' = true
+
+/-! ### the visitor never forgets (all constructors, whole mutual block) -/
+
+theorem C01_monotone_visit (env : Env) (mn : Str) (n : Node) (s s' : St)
+    (h : visit env mn n s = .ok s') : IrLe s s' := visit_irLe h
+
+theorem C01_monotone_visitList (env : Env) (mn : Str) (l : List Node) (s s' : St)
+    (h : visitList env mn l s = .ok s') : IrLe s s' := visitList_irLe h
+
+theorem C01_monotone_visitSortedKey (env : Env) (mn : Str) (ir : NameRes)
+    (kwn : List (Option Str)) (kwv : List Node) (s s' : St)
+    (h : visitSortedKey env mn ir kwn kwv s = .ok s') : IrLe s s' := visitSortedKey_irLe h
+
+theorem C01_monotone_assignDiv (env : Env) (mn : Str) (targets : List Node) (v : Node) (s s' : St) :
+    (assignDiv env mn targets v s = .done (.ok s') → IrLe s s') ∧
+    (assignDiv env mn targets v s = .generic s' → IrLe s s') :=
+  ⟨assignDiv_done_irLe, assignDiv_generic_irLe⟩
+
+theorem C01_monotone_visitReturnValue (env : Env) (mn : Str) (n : Node) (s s' : St)
+    (k : St → Bool → Res)
+    (hk : ∀ s₁ b s₂, k s₁ b = .ok s₂ → IrLe s₁ s₂ ∧ (s₁.ctx ≠ [] → s₂.ctx.length = s₁.ctx.length))
+    (h : visitReturnValue env mn n s k = .ok s') : IrLe s s' := visitReturnValue_irLe hk h
+
+theorem C01_monotone_visitReturnElts (env : Env) (mn : Str) (l : List Node) (s s' : St)
+    (h : visitReturnElts env mn l s = .ok s') : IrLe s s' := visitReturnElts_irLe h
+
+/-- `body = pre ++ post`: whatever is in the IR after the statements `pre` is in the IR that
+`analyse` returns. -/
+theorem C01_recorded_survives (env : Env) (mn : Str) (root : Context) (ps : Params)
+    (pre post : List Node) (s₁ s' : St)
+    (h1 : visitList env mn pre (analyseInit root ps) = .ok s₁)
+    (h : analyse env mn root ps (pre ++ post) = .ok s') : IrLe s₁ s' := by
+  obtain ⟨u, hu, hle, _, _⟩ := analyse_inv h
+  rw [visitList_append, h1] at hu
+  exact (visitList_irLe hu).trans hle
+
+/-! ### dispatch facts -/
+
+/-- a node kind without a dedicated visitor: every child is visited, in order. -/
+theorem C01_generic_children (env : Env) (mn : Str) (kind : Str) (kids : List Node) (s : St) :
+    visit env mn (.other kind kids) s = visitList env mn kids s := by rw [visit]
+
+/-- a statement list is visited statement by statement. -/
+theorem C01_list_each (env : Env) (mn : Str) (a b : List Node) (s : St) :
+    visitList env mn (a ++ b) s = (visitList env mn a s >>>= fun s₁ => visitList env mn b s₁) :=
+  visitList_append env mn a b s
+
+/-- the set an expression context selects. -/
+def irOf (c : ECtx) (s : St) : List NameS :=
+  match c with
+  | .load => s.gets
+  | .store => s.sets
+  | .del => s.dels
+
+/-- every pure name chain (`x`, `E.a`, `E[i]`, `*E`), in every context and from every state, is
+visited successfully and reported under the kind of its context with the README spelling. -/
+theorem C01_chain_reported (env : Env) (mn : Str) (n : Node) (hn : isChain n = true) (s : St) :
+    ∃ s', visit env mn n s = .ok s' ∧ ⟨chainSpell n, chainBase n⟩ ∈ irOf (chainCtx n) s' := by
+  refine ⟨_, visit_chain env mn n hn s, ?_⟩
+  cases chainCtx n <;> exact mem_addTo_self _ _
+
+/-- the independent spec's spelling agrees with `chainSpell` on chains. -/
+theorem C01_chain_spelling (n : Node) (hn : isChain n = true) :
+    spell n = chainSpell n ∧ baseOf n = chainBase n := spell_chain n hn
+
+/-- C01 on the fragment "generic nodes over pure chains" (`AccessSpec.simple`: name chains with
+constant subscript indices, constants, tuple / list / set / dict displays and EVERY node kind
+without a dedicated visitor — Expr, If, While, BinOp, BoolOp, Compare, JoinedStr, Await, Yield … —
+nested to arbitrary depth): the analysis succeeds and every access the spec lists is reported. -/
+theorem C01_partial (env : Env) (mn : Str) (root : Context) (ps : Params) (body : List Node)
+    (hb : simpleL body = true) :
+    ∃ s', analyse env mn root ps body = .ok s' ∧ ∀ a ∈ accessesL body, present a s' = true := by
+  obtain ⟨u, hu, g⟩ := visitList_simple env mn body hb (analyseInit root ps)
+  rw [analyse_eq, hu]
+  refine ⟨_, rfl, fun a ha => ?_⟩
+  obtain ⟨k, nme, b⟩ := a
+  cases k
+  · have := (g.gets ⟨nme, b⟩).mpr (Or.inr ha)
+    simp only [present, List.any_eq_true]
+    exact ⟨⟨nme, b⟩, this, by simp⟩
+  · have := (g.sets ⟨nme, b⟩).mpr (Or.inr ha)
+    simp only [present, List.any_eq_true]
+    exact ⟨⟨nme, b⟩, this, by simp⟩
+  · have := (g.dels ⟨nme, b⟩).mpr (Or.inr ha)
+    simp only [present, List.any_eq_true]
+    exact ⟨⟨nme, b⟩, this, by simp⟩
+  · exact absurd rfl (g.nocall _ ha)
+
+/-- an ordinary call (its target has no custom analyser, its naming succeeds): a record named
+`without_call_brackets(fullname)` is added, then all positional arguments and all keyword values
+are visited, and the record is still there at the end. -/
+theorem C01_call_recorded (env : Env) (mn : Str) (f : Node) (args : List Node)
+    (kwn : List (Option Str)) (kwv : List Node) (s s' : St) (b tn base fullname : Str)
+    (htn : targetNameNoUnravel (.call f args kwn kwv) = .ok b tn)
+    (hno : analyserFor env mn
+      (Context.getCallTarget env.ctxEnv s.ctx tn (isCallOnCall (.call f args kwn kwv)) false).1 = none)
+    (hname : namesOf true (.call f args kwn kwv) = .ok base fullname)
+    (h : visit env mn (.call f args kwn kwv) s = .ok s') :
+    ∃ c s₁ s₂, c.name = withoutCallBrackets fullname ∧ c ∈ s₁.calls ∧
+      visitList env mn args s₁ = .ok s₂ ∧ visitList env mn kwv s₂ = .ok s' ∧ c ∈ s'.calls := by
+  unfold visit at h
+  simp only [htn, liftName, hno] at h
+  rw [getAndVerify_ok hname] at h
+  obtain ⟨s₁, c, hc, _, hk⟩ := mkCall_ok h
+  obtain ⟨s₂, h2, h3⟩ := bind_ok hk
+  refine ⟨c, _, s₂, hc, mem_addCall_self _ _, h2, h3, ?_⟩
+  exact (visitList_irLe h3).calls _ ((visitList_irLe h2).calls _ (mem_addCall_self _ _))
+
+/-- `(e).a` with `e` not nameable (a BinOp, a literal, …): `e` IS visited, then `@Kind.a` is
+recorded. (Only at depth 1: see `C01_cex_unnameable_base_depth2`.) -/
+theorem C01_unnameable_base_visited (env : Env) (mn : Str) (e : Node) (a : Str) (c : ECtx) (s : St)
+    (he : e.isNameable = false) :
+    visit env mn (.attr e a c) s =
+      (visit env mn e s >>>= fun s₂ =>
+        .ok (updateResults s₂ ⟨safeName e ++ '.' :: a, safeName e⟩ c)) := by
+  have hn : namesOf true (.attr e a c) = .ok (safeName e) (safeName e ++ '.' :: a) := by
+    simp [namesOf, namesOf_unnameable e he]
+  rw [visit, getAndVerify_ok hn]
+  simp only [he, safeName, warnUndef_standin]
+  rfl
+
+/-! ### counterexamples (known findings), by kernel evaluation of the model -/
+
+def S (x : String) : Str := x.toList
+def nm (x : String) (c : ECtx := .load) : Node := .name (S x) c
+def att (v : Node) (a : String) (c : ECtx := .load) : Node := .attr v (S a) c
+def subs (v i : Node) (c : ECtx := .load) : Node := .sub v i c
+def call (f : Node) (args : List Node) : Node := .call f args [] []
+def callKw (f : Node) (args : List Node) (k : String) (v : Node) : Node :=
+  .call f args [some (S k)] [v]
+def binOp (l r : Node) : Node := .other (S "BinOp") [l, r]
+def boolOp (l r : Node) : Node := .other (S "BoolOp") [l, r]
+def expr (e : Node) : Node := .other (S "Expr") [e]
+def P (xs : List String) : Params := ⟨[], xs.map S, none, [], none⟩
+def bi (x : String) : Str × Sym := (S x, { kind := .builtin, name := S x, callable := true })
+
+/-- the plugin table of the pinned code (Tie A: `defaultAnalysers`). -/
+def env0 : Env :=
+  { ctxEnv := { prims := [S "str", S "int", S "list"], literals := astLiterals },
+    analysers := [S "getattr", S "hasattr", S "setattr", S "delattr", S "sorted",
+                  S "collections.defaultdict"] }
+
+/-- root context: the builtins used below, `from collections import defaultdict`, a class `Cls`. -/
+def root0 : Context :=
+  [[bi "getattr", bi "hasattr", bi "setattr", bi "delattr", bi "sorted", bi "list",
+    (S "defaultdict", { kind := .import_, name := S "defaultdict", callable := true,
+                        qual := S "collections.defaultdict" }),
+    (S "Cls", { kind := .cls, name := S "Cls", callable := true,
+                iface := some ⟨[], [S "self", S "v"], none, [], none⟩ })]]
+
+/-- `def w(<ps>): <body>` analysed in module `m`. -/
+def run (ps : List String) (body : List Node) : Res := analyse env0 (S "m") root0 (P ps) body
+
+def getsOf : Res → Option (List Str) | .ok s => some (s.gets.map (·.full)) | _ => none
+def setsOf : Res → Option (List Str) | .ok s => some (s.sets.map (·.full)) | _ => none
+def delsOf : Res → Option (List Str) | .ok s => some (s.dels.map (·.full)) | _ => none
+def callsOf : Res → Option (List Str) | .ok s => some (s.calls.map (·.name)) | _ => none
+
+/-- `a.x[b.y].z` -/
+def bodySubscript : List Node := [expr (att (subs (att (nm "a") "x") (att (nm "b") "y")) "z")]
+
+/-- subscript index: `def w(a, b): a.x[b.y].z` — the spec demands `b.y`, the IR has only
+`a.x[].z`. -/
+theorem C01_cex_subscript_index :
+    ⟨.get, S "b.y", S "b"⟩ ∈ accessesL bodySubscript ∧
+    getsOf (run ["a", "b"] bodySubscript) = some [S "a.x[].z"] ∧
+    presentR ⟨.get, S "b.y", S "b"⟩ (run ["a", "b"] bodySubscript) = false := by decide +kernel
+
+/-- `a.b(c.d).e()` -/
+def bodyInnerCall : List Node :=
+  [expr (call (att (call (att (nm "a") "b") [att (nm "c") "d"]) "e") [])]
+
+/-- call inside a name chain: `def w(a, c): a.b(c.d).e()` — the inner call `a.b` is not in
+`calls` and its argument `c.d` is not in `gets`. -/
+theorem C01_cex_call_inside_chain :
+    ⟨.call, S "a.b", S "a"⟩ ∈ accessesL bodyInnerCall ∧
+    ⟨.get, S "c.d", S "c"⟩ ∈ accessesL bodyInnerCall ∧
+    callsOf (run ["a", "c"] bodyInnerCall) = some [S "a.b().e"] ∧
+    getsOf (run ["a", "c"] bodyInnerCall) = some [S "a.b()"] := by decide +kernel
+
+/-- `(a or b)(c)` -/
+def bodyUnnameableCallee : List Node := [expr (call (boolOp (nm "a") (nm "b")) [nm "c"])]
+
+/-- operands of an unnameable callee: `def w(a, b, c): (a or b)(c)` — `a`, `b` missing. -/
+theorem C01_cex_unnameable_callee :
+    ⟨.get, S "a", S "a"⟩ ∈ accessesL bodyUnnameableCallee ∧
+    ⟨.get, S "b", S "b"⟩ ∈ accessesL bodyUnnameableCallee ∧
+    getsOf (run ["a", "b", "c"] bodyUnnameableCallee) = some [S "c"] ∧
+    callsOf (run ["a", "b", "c"] bodyUnnameableCallee) = some [S "@BoolOp"] := by decide +kernel
+
+/-- `(c + d).y.z` -/
+def bodyDepth2 : List Node := [expr (att (att (binOp (nm "c") (nm "d")) "y") "z")]
+/-- `(a + b).x` -/
+def bodyDepth1 : List Node := [expr (att (binOp (nm "a") (nm "b")) "x")]
+
+/-- unnameable base under ≥ 2 links: `(c + d).y.z` drops `c`, `d`; at depth 1 `(a + b).x`
+reports `a`, `b` (cf. `C01_unnameable_base_visited`). -/
+theorem C01_cex_unnameable_base_depth2 :
+    ⟨.get, S "c", S "c"⟩ ∈ accessesL bodyDepth2 ∧ ⟨.get, S "d", S "d"⟩ ∈ accessesL bodyDepth2 ∧
+    getsOf (run ["c", "d"] bodyDepth2) = some [S "@BinOp.y.z"] ∧
+    getsOf (run ["a", "b"] bodyDepth1) = some [S "a", S "b", S "@BinOp.x"] := by decide +kernel
+
+/-- `setattr(a, 'x', b.y)` -/
+def bodySetattr : List Node :=
+  [expr (call (nm "setattr") [nm "a", .strConst (S "x"), att (nm "b") "y"])]
+
+/-- getattr-family extra argument: `def w(a, b): setattr(a, 'x', b.y)` — `b.y` missing (the
+attribute access itself, set `a.x` / get `a`, is reported). -/
+theorem C01_cex_xattr_extra_argument :
+    ⟨.get, S "b.y", S "b"⟩ ∈ accessesL bodySetattr ∧
+    getsOf (run ["a", "b"] bodySetattr) = some [S "a"] ∧
+    setsOf (run ["a", "b"] bodySetattr) = some [S "a.x"] ∧
+    callsOf (run ["a", "b"] bodySetattr) = some [] := by decide +kernel
+
+/-- `getattr(a, n.m)` -/
+def bodyGetattrDyn : List Node := [expr (call (nm "getattr") [nm "a", att (nm "n") "m"])]
+
+/-- getattr-family non-literal name: `def w(a, n): getattr(a, n.m)` — `n.m` is not visited and
+the call is not recorded. -/
+theorem C01_cex_xattr_non_literal :
+    ⟨.get, S "n.m", S "n"⟩ ∈ accessesL bodyGetattrDyn ∧
+    ⟨.call, S "getattr", S "getattr"⟩ ∈ accessesL bodyGetattrDyn ∧
+    getsOf (run ["a", "n"] bodyGetattrDyn) = some [S "a.<n.m>", S "a.<n", S "a"] ∧
+    callsOf (run ["a", "n"] bodyGetattrDyn) = some [] := by decide +kernel
+
+/-- `sorted(xs, reverse=a.r)` -/
+def bodySorted : List Node := [expr (callKw (nm "sorted") [nm "xs"] "reverse" (att (nm "a") "r"))]
+
+/-- sorted: extra argument `a.r` missing, and no call record for `sorted`. -/
+theorem C01_cex_sorted :
+    ⟨.get, S "a.r", S "a"⟩ ∈ accessesL bodySorted ∧
+    ⟨.call, S "sorted", S "sorted"⟩ ∈ accessesL bodySorted ∧
+    getsOf (run ["xs", "a"] bodySorted) = some [S "xs"] ∧
+    callsOf (run ["xs", "a"] bodySorted) = some [] := by decide +kernel
+
+/-- `defaultdict(a.factory, a.extra)` -/
+def bodyDefaultdict : List Node :=
+  [expr (call (nm "defaultdict") [att (nm "a") "factory", att (nm "a") "extra"])]
+
+/-- defaultdict: no call record for `defaultdict`, the named factory is a call but not a get, the
+extra argument is not visited. -/
+theorem C01_cex_defaultdict :
+    ⟨.call, S "defaultdict", S "defaultdict"⟩ ∈ accessesL bodyDefaultdict ∧
+    ⟨.get, S "a.factory", S "a"⟩ ∈ accessesL bodyDefaultdict ∧
+    ⟨.get, S "a.extra", S "a"⟩ ∈ accessesL bodyDefaultdict ∧
+    getsOf (run ["a"] bodyDefaultdict) = some [] ∧
+    callsOf (run ["a"] bodyDefaultdict) = some [S "a.factory"] := by decide +kernel
+
+/-- `g = lambda w: w.k` -/
+def bodyLambdaAssign : List Node :=
+  [.assign [nm "g" .store] (.lam (P ["w"]) (att (nm "w") "k"))]
+
+/-- lambda assignment: the target `g` is not recorded under sets. -/
+theorem C01_cex_lambda_assignment :
+    ⟨.set, S "g", S "g"⟩ ∈ accessesL bodyLambdaAssign ∧
+    setsOf (run ["a"] bodyLambdaAssign) = some [] := by decide +kernel
+
+/-- `P = namedtuple('P', a.fields)` -/
+def bodyNamedtuple : List Node :=
+  [.assign [nm "P" .store] (call (nm "namedtuple") [.strConst (S "P"), att (nm "a") "fields"])]
+
+/-- namedtuple assignment: neither the target, the call nor its arguments are recorded. -/
+theorem C01_cex_namedtuple_assignment :
+    ⟨.set, S "P", S "P"⟩ ∈ accessesL bodyNamedtuple ∧
+    ⟨.call, S "namedtuple", S "namedtuple"⟩ ∈ accessesL bodyNamedtuple ∧
+    ⟨.get, S "a.fields", S "a"⟩ ∈ accessesL bodyNamedtuple ∧
+    setsOf (run ["a"] bodyNamedtuple) = some [] ∧ callsOf (run ["a"] bodyNamedtuple) = some [] ∧
+    getsOf (run ["a"] bodyNamedtuple) = some [] := by decide +kernel
+
+/-- `x: a.T = Cls(b)` -/
+def bodyAnnClass : List Node :=
+  [.annAssign (nm "x" .store) (att (nm "a") "T") [call (nm "Cls") [nm "b"]]]
+
+/-- annotation of a class-instance assignment: `a.T` is never visited (target, call and argument
+are reported). -/
+theorem C01_cex_annotation_class_assignment :
+    ⟨.get, S "a.T", S "a"⟩ ∈ accessesL bodyAnnClass ∧
+    getsOf (run ["a", "b"] bodyAnnClass) = some [S "b"] ∧
+    setsOf (run ["a", "b"] bodyAnnClass) = some [S "x"] ∧
+    callsOf (run ["a", "b"] bodyAnnClass) = some [S "Cls"] := by decide +kernel
+
+theorem C01_full_false : ¬ C01_full := by
+  intro h
+  have hc := C01_cex_subscript_index
+  have hrun : ∃ s', run ["a", "b"] bodySubscript = .ok s' := by
+    cases hr : run ["a", "b"] bodySubscript with
+    | ok s' => exact ⟨s', rfl⟩
+    | fatal s d => rw [hr] at hc; simp [getsOf] at hc
+    | crash s e => rw [hr] at hc; simp [getsOf] at hc
+  obtain ⟨s', hs'⟩ := hrun
+  have := h env0 (S "m") root0 (P ["a", "b"]) bodySubscript s' hs' _ hc.1
+  have h3 := hc.2.2
+  rw [hs'] at h3
+  simp only [presentR] at h3
+  rw [this] at h3
+  cases h3
+
+/-! ### non-vacuity -/
+
+/-- `C01_chain_reported` on `*a.b[0].c` in Store context. -/
+example : ∃ s', visit env0 (S "m") (.attr (.sub (.starred (att (nm "a") "b") .load) .const .load) (S "c") .store)
+      (analyseInit root0 (P ["a"])) = .ok s' ∧ ⟨S "*a.b[].c", S "a"⟩ ∈ s'.sets :=
+  C01_chain_reported env0 (S "m") _ (by decide) _
+
+/-- the hypotheses of `C01_call_recorded` are satisfiable: `a.m(b)` is an ordinary call. -/
+example : ∃ b tn base fullname,
+    targetNameNoUnravel (call (att (nm "a") "m") [nm "b"]) = .ok b tn ∧
+    analyserFor env0 (S "m") (Context.getCallTarget env0.ctxEnv (analyseInit root0 (P ["a", "b"])).ctx tn
+      (isCallOnCall (call (att (nm "a") "m") [nm "b"])) false).1 = none ∧
+    namesOf true (call (att (nm "a") "m") [nm "b"]) = .ok base fullname ∧
+    callsOf (run ["a", "b"] [expr (call (att (nm "a") "m") [nm "b"])]) = some [S "a.m"] ∧
+    getsOf (run ["a", "b"] [expr (call (att (nm "a") "m") [nm "b"])]) = some [S "b"] :=
+  ⟨S "a", S "a.m", S "a", S "a.m()", by decide +kernel⟩
+
+/-- `C01_recorded_survives` / `C01_list_each` with a non-empty prefix. -/
+example : getsOf (visitList env0 (S "m") [expr (nm "a")] (analyseInit root0 (P ["a", "b"]))) = some [S "a"] ∧
+    getsOf (run ["a", "b"] ([expr (nm "a")] ++ [expr (nm "b")])) = some [S "a", S "b"] := by
+  decide +kernel
+
+/-- `C01_partial` applies to e.g. `if a.b[0] < *c: (x.y, {k: v.w})` (nested generic nodes). -/
+example : simpleL [.other (S "If") [.other (S "Compare") [subs (att (nm "a") "b") .const, .starred (nm "c") .load],
+    expr (.seq (S "Tuple") [att (nm "x") "y", .dict [nm "k"] [att (nm "v") "w"]] .load)]] = true := by
+  decide
+
+/-- `C01_unnameable_base_visited` on `(a + b).x`. -/
+example : (binOp (nm "a") (nm "b")).isNameable = false := rfl
+
 end Rattr.C01
